@@ -42,6 +42,40 @@ Definition run_lsn (o : list value) : option (bool * bool) :=
   | _ => None
   end.
 
+(* ---- kind lsn.slowlink ----
+   outs: [[cl sock qorg qrx qtx got rorg rrx rtx rref crecv unread] ...] in the order the requests were sent *)
+Definition parse_sstep (v : value) : option (bool * sstepr) :=
+  match v with
+  | VL [VZ cl; VZ _; VZ qorg; VZ qrx; VZ qtx; VZ got; VZ rorg; VZ rrx; VZ rtx; VZ rref; VZ crecv; VZ unread] =>
+      Some (got =? 1,
+            {| ss_obs := {| sw_obs := {| l_cl := cl; l_q := {| q_org := qorg; q_rx := qrx; q_tx := qtx |};
+                                         l_org := rorg; l_rx := rrx; l_tx := rtx |};
+                            sw_crecv := crecv; sw_unread := unread =? 1 |};
+               ss_ref := rref |})
+  | _ => None
+  end.
+
+Fixpoint parse_ssteps (l : list value) : option (bool * list sstepr) :=
+  match l with
+  | [] => Some (true, [])
+  | v :: r =>
+      match parse_sstep v, parse_ssteps r with
+      | Some (g, s), Some (ga, ss) => Some (g && ga, if g then s :: ss else ss)
+      | _, _ => None
+      end
+  end.
+
+Definition run_slow (o : list value) : option (bool * bool) :=
+  match o with
+  | [VL stepsv] =>
+      match parse_ssteps stepsv with
+      | Some (all_got, steps) =>
+          Some (all_got && C06_slow_agree steps, C06_slow_ok (map ss_obs steps))
+      | None => None
+      end
+  | _ => None
+  end.
+
 (* ---- operations on the store at its real capacity, each with the client's item as it was in
    the real store before and after (kind tss.full, and the probes of tss.flood) ----
    handle: [0 cid org rx tx rxt now pre rorg rrx rtx rref rxt' txt' post]
@@ -166,6 +200,11 @@ Definition glue_C06 (k : string) (a o : list value) : option verdict :=
     end
   else if is k "lsn.hist" then
     match run_lsn o with
+    | Some (g, orc) => Some (relational g orc)
+    | None => Some (relational false true)
+    end
+  else if is k "lsn.slowlink" then
+    match run_slow o with
     | Some (g, orc) => Some (relational g orc)
     | None => Some (relational false true)
     end
